@@ -22,6 +22,11 @@ EXTENSIONS = [
               "largest density not above max_dpi); TLC (IconSelectMC): ClosedForm, PickIsCandidate, OrderFree (independent of the table order), Improves, Terminates; every enumerated case is built as an "
               "APK (independent AXML and ARSC writers), queried and validated by IconSelect_Trace (vf/props/x05.py); finding: the main activity's icon is ignored when the manifest names the activity "
               "relative to the package ('.Main'): the lookup compares the raw attribute with the qualified name"),
+    dict(name="tlc+LauncherEntry", path="/verif/spec/LauncherEntry.tla",
+         text="X06: APK.get_main_activities as a scan over activities and their intent-filters (filter = {MAIN?, LAUNCHER?}); two scan variants in one spec: PerFilter (the platform's rule: one filter must declare "
+              "both) and androguard's (two sets collected over all filters, intersected at the end); TLC: Exact (platform variant only), NoEntryMissed, Justified, DisabledNeverReported, AlignedExact, Grows, "
+              "Terminates over 2 activities x enabled x every sequence of <= 2 filters; all 1764 manifests written by the independent AXML writer, parsed by APK and validated by LauncherEntry_Trace "
+              "(vf/props/x06.py); finding: an activity with MAIN in one filter and LAUNCHER in another is reported as a main activity"),
 ]
 
 
